@@ -27,13 +27,14 @@ theorem f141_prefilled_counterexample :
     ∃ bs', mapRecvVectored 6 (scatter bs [1, 2, 3, 4, 5, 6]) = .ok (6, bs') ∧
       bs'.map (·.vis) = [[1, 2, 3, 4], [5, 6]] := ⟨_, rfl, rfl⟩
 
-/-- F140: in the fusion build the polling fallback of `RecvFromMulti` / `RecvMsgMulti` never learns the
-result (`set_result` is not forwarded), `take_buffer` advances to 0: every datagram arrives empty. -/
+/-- F140 (repaired in /repo 9127ff7; this is the behaviour *before* the repair, `setResultUnfixed`): in the
+fusion build the polling fallback of `RecvFromMulti` / `RecvMsgMulti` never learned the result
+(`set_result` was not forwarded), `take_buffer` advanced to 0: every datagram arrived empty. -/
 theorem f140_fusion_poll_counterexample (cap : Nat) (w : Bytes) :
-    ∃ b, ((FallbackMulti.mk ((Buf.poolOf cap).write w) 0).setResult true w.length).takeBuffer = .ok b ∧
+    ∃ b, ((FallbackMulti.mk ((Buf.poolOf cap).write w) 0).setResultUnfixed w.length).takeBuffer = .ok b ∧
       b.vis = [] := by
   refine ⟨(Buf.poolOf cap).write w, ?_, ?_⟩
-  · simp [FallbackMulti.setResult, FallbackMulti.takeBuffer, advanceTo, Buf.write, Buf.poolOf]
+  · simp [FallbackMulti.setResultUnfixed, FallbackMulti.takeBuffer, advanceTo, Buf.write, Buf.poolOf]
   · simp [Buf.vis, Buf.write, Buf.poolOf]
 
 /-- excluded point of `compLen_exact`: a receive call that reports more than the capacity (only with
